@@ -28,7 +28,14 @@ pub open spec fn with1(pre: Seq<char>, n: u32) -> Seq<char> { pre + num_text(n a
 pub open spec fn with2(pre: Seq<char>, p: u32, s: u32) -> Seq<char> { pre + num_text(p as int) + ", "@ + num_text(s as int) + ")"@ }   //  name(p, s)
 pub open spec fn with_some_len(pre: Seq<char>, t: Seq<char>) -> bool { exists|d: Seq<char>| all_digits(d) && t == pre + d + ")"@ }   //  name(<digits>)
 pub uninterp spec fn enum_text(variants: Seq<DynIden>) -> Seq<char>;     // MySQL ENUM('a', 'b'): the label list is a literal position (unit escape, C03)
-pub uninterp spec fn interval_fields_text(f: PgInterval) -> Seq<char>;   // Display of PgInterval (YEAR, MONTH, .. DAY TO SECOND)
+// PostgreSQL 8.5.4: the `fields` restriction of an interval type (what Display for PgInterval must write: verified below)
+pub open spec fn interval_fields_text(f: PgInterval) -> Seq<char> {
+    match f {
+        PgInterval::Year => "YEAR"@, PgInterval::Month => "MONTH"@, PgInterval::Day => "DAY"@, PgInterval::Hour => "HOUR"@, PgInterval::Minute => "MINUTE"@, PgInterval::Second => "SECOND"@,
+        PgInterval::YearToMonth => "YEAR TO MONTH"@, PgInterval::DayToHour => "DAY TO HOUR"@, PgInterval::DayToMinute => "DAY TO MINUTE"@, PgInterval::DayToSecond => "DAY TO SECOND"@,
+        PgInterval::HourToMinute => "HOUR TO MINUTE"@, PgInterval::HourToSecond => "HOUR TO SECOND"@, PgInterval::MinuteToSecond => "MINUTE TO SECOND"@,
+    }
+}
 
 // ---- MySQL 8.0, chapter 13 ----------------------------------------------------------------------------------------------------------
 pub open spec fn mysql_has(ct: ColumnType) -> bool {
